@@ -4,7 +4,7 @@
    known q h = bits [0,8q] and [57,63] of h = what a bucket keeps next to an element of class q. *)
 From Coq Require Import ZArith List.
 From MomoCommon Require Import GenPrelude.
-From C12 Require Gen_Base Gen_O2 Gen_O2MP Gen_P4 Gen_One Known P4_Model P4_Slot P4_Bucket O2_Slot Chain O2_Bucket MP_Open2N2 TableO2 TableO2_Proofs TableP4 TableP4_Proofs TableOne TableOne_Proofs.
+From C12 Require Gen_Base Gen_O2 Gen_O2MP Gen_P4 Gen_One Known P4_Model P4_Slot P4_Bucket O2_Slot Chain O2_Bucket MP_Open2N2 TableO2 TableO2_Proofs TableP4 TableP4_Proofs TableOne TableOne_Proofs Refuted.
 Import ListNotations.
 Local Open Scope Z_scope.
 
@@ -333,7 +333,8 @@ Theorem C12_limp4_table_remove_keeps_invariant :
   forall L t b idx, 0 <= L <= 63 -> TableP4_Proofs.PTinv H hash L t -> 0 <= idx < TableP4.pcnt (t b) ->
     exists t', TableP4.premove_at H mm t b idx = Ok t' /\ TableP4_Proofs.PTinv H hash L t' /\
       TableP4.pcnt (t' b) = TableP4.pcnt (t b) - 1 /\ (forall j, j <> b -> t' j = t j) /\
-      (forall k, TableP4_Proofs.PPresent L t k -> k = TableP4.pky (t b) idx \/ TableP4_Proofs.PPresent L t' k).
+      (forall k, TableP4_Proofs.PPresent L t k -> k = TableP4.pky (t b) idx \/ TableP4_Proofs.PPresent L t' k) /\
+      TableP4.pky (t' b) = upd (TableP4.pky (t b)) idx (TableP4.pky (t b) (TableP4.pcnt (t b) - 1)).
 Proof. exact TableP4_Proofs.premove_at_spec. Qed.
 Print Assumptions C12_limp4_table_remove_keeps_invariant.
 
@@ -509,3 +510,65 @@ Theorem C12_open2n2_throwing_migration_exactly_one_generation :
     end.
 Proof. exact TableO2_Proofs.migrate_from_c_exactly_one. Qed.
 Print Assumptions C12_open2n2_throwing_migration_exactly_one_generation.
+
+(* ---- round 5: EXACTLY one generation for LimP4 and BucketOne (the Open2N2 statement is above) ---- *)
+Theorem C12_limp4_throwing_migration_exactly_one_generation :
+  forall H mm hash, 4 <= H <= 8 -> 1 <= mm <= 4 -> (forall k, 0 <= hash k < 2 ^ 64) ->
+  forall L newL budget told tnew calls, 0 <= L -> L < newL <= 63 -> TableP4_Proofs.PGood H hash L newL told tnew ->
+    match TableP4.pmigrate_from_c H mm hash (Z.to_nat (2 ^ L)) told tnew L newL 0 budget calls with
+    | Ok (told', tnew', _, thrown) =>
+        TableP4_Proofs.PGood H hash L newL told' tnew' /\
+        (forall k, TableP4_Proofs.PPresent L told k \/ TableP4_Proofs.PPresent newL tnew k ->
+           (TableP4_Proofs.PPresent L told' k \/ TableP4_Proofs.PPresent newL tnew' k) /\
+           ~ (TableP4_Proofs.PPresent L told' k /\ TableP4_Proofs.PPresent newL tnew' k)) /\
+        (thrown = false -> forall k, TableP4_Proofs.PPresent L told k \/ TableP4_Proofs.PPresent newL tnew k ->
+           TableP4_Proofs.PFound hash newL tnew' k)
+    | Exn => True
+    | _ => False
+    end.
+Proof. exact TableP4_Proofs.pmigrate_from_c_exactly_one. Qed.
+Print Assumptions C12_limp4_throwing_migration_exactly_one_generation.
+
+(* BucketOne never calls the full getter, so nothing can throw; the statement is about stopping the loop after ANY number n
+   of buckets (e.g. when a relocation of the element type throws): both generations keep their invariants, no key is
+   stored twice, every key is in exactly one generation. *)
+Theorem C12_one_migration_exactly_one_generation :
+  forall hash, (forall k, 0 <= hash k < 2 ^ 64) ->
+  forall L newL, 0 <= L -> L < newL <= 63 ->
+  forall n told tnew i, 0 <= i -> i + Z.of_nat n <= 2 ^ L -> TableOne_Proofs.OGood hash L newL told tnew ->
+    match TableOne.omigrate_from hash n told tnew newL i with
+    | Ok (told', tnew') =>
+        TableOne_Proofs.OGood hash L newL told' tnew' /\
+        (forall k, TableOne_Proofs.OPresent L told k \/ TableOne_Proofs.OPresent newL tnew k ->
+           (TableOne_Proofs.OPresent L told' k \/ TableOne_Proofs.OPresent newL tnew' k) /\
+           ~ (TableOne_Proofs.OPresent L told' k /\ TableOne_Proofs.OPresent newL tnew' k))
+    | Exn => True
+    | _ => False
+    end.
+Proof. exact TableOne_Proofs.omigrate_from_exactly_one. Qed.
+Print Assumptions C12_one_migration_exactly_one_generation.
+
+(* ---- `_refuted` witnesses for the two independently seeded changes (Refuted.v: hand variants of the generated functions
+   that differ exactly as the seeds' patches do) ---- *)
+
+(* seed a (class test replaced by an exact-stored-bits test): along the chain 256 -> 512 -> 1024 buckets an element whose
+   hash has bit 9 set ends in bucket 5 instead of 517; the generated function places it where a full rehash would. *)
+Theorem C12_seedA_exact_bits_test_refuted :
+  Refuted.chainA Refuted.GetHashCodePart_seedA <> Gen_Base.GetStartBucketIndex Refuted.hA (2 ^ 10) /\
+  Refuted.chainA Refuted.real_getpart = Gen_Base.GetStartBucketIndex Refuted.hA (2 ^ 10).
+Proof. exact Refuted.seedA_refuted. Qed.
+Print Assumptions C12_seedA_exact_bits_test_refuted.
+
+(* seed b (Remove guard off by one at index + count = hashCount - 1): after erasing element 0 of a 3-element bucket the
+   moved element keeps the erased element's hash-probe byte and is re-placed with the wrong hash bits; the generated Remove
+   marks the byte empty (full getter). *)
+Theorem C12_seedB_remove_guard_refuted :
+  let sB := Refuted.Remove_seedB 4 (Refuted.add3 4 4 Refuted.hB1 Refuted.hB2 Refuted.hB3) 0 in
+  let sO := Refuted.Remove_orig 4 (Refuted.add3 4 4 Refuted.hB1 Refuted.hB2 Refuted.hB3) 0 in
+  Gen_P4.pvGetCount sB = 2 /\ sB 0 = Gen_P4.pvCalcShortHash Refuted.hB3 /\
+  Gen_P4.GetHashCodePart 4 sB 999 3 4 6 8 0 = Known.known (Known.qof 4) Refuted.hB1 /\
+  Known.known (Known.qof 4) Refuted.hB1 <> Known.known (Known.qof 4) Refuted.hB3 /\
+  Gen_Base.GetStartBucketIndex (Known.known (Known.qof 4) Refuted.hB1) (2 ^ 6) <> Gen_Base.GetStartBucketIndex Refuted.hB3 (2 ^ 6) /\
+  Gen_P4.GetHashCodePart 4 sO 999 3 4 6 8 0 = 999.
+Proof. exact Refuted.seedB_refuted. Qed.
+Print Assumptions C12_seedB_remove_guard_refuted.
